@@ -561,6 +561,28 @@ def install_arrays(reg: Registry):
     def full(i, a, k, n):
         return const_arr(to_real(a[1]), to_int(a[0]))
 
+    @H("xp.full_like")
+    def full_like(i, a, k, n):
+        x, v = a[0], a[1]
+        if isinstance(v, Sym) and v.tag == "xreal":
+            return Arr(x.n, "xreal", lambda kk, _v=v.e: _v, f"full_like({x.key},{skey(v)})", x.meta)
+        if x.elem == "xreal":
+            t = X.fin(to_real(v))
+            return Arr(x.n, "xreal", lambda kk: t, f"full_like({x.key},{skey(v)})", x.meta)
+        return const_arr(to_real(v), x.n)
+
+    @H("xp.zeros_like")
+    def zeros_like(i, a, k, n):
+        return full_like(i, [a[0], R(0.0)], k, n)
+
+    @H("xp.all")
+    def xp_all(i, a, k, n):
+        return B(z3.Const(f"all<{a[0].key}>", BS))
+
+    @H("xp.any")
+    def xp_any(i, a, k, n):
+        return B(z3.Const(f"any<{a[0].key}>", BS))
+
     @H("xp.concatenate")
     def concatenate(i, a, k, n):
         assumed(i, "xp.concatenate(axis=0): rows of the parts in order")
@@ -673,13 +695,26 @@ def install_arrays(reg: Registry):
             if not (isinstance(idx, Arr) and idx.elem == "bool"):
                 raise Unsupported("masked assignment with a non-boolean index")
             old_at = x.at
-            if x.elem == "xreal":
+            facts = list(x.facts)
+            if isinstance(y, Arr):
+                # scatter: the k-th True position receives y[k]; rank/sel are mutually inverse on the True positions
+                sel = uf(f"masksel<{idx.key}>", IS, IS)
+                rank = uf(f"maskrank<{idx.key}>", IS, IS)
+                ya = y.at if x.elem != "xreal" else xelem(y)[0]
+                ey = lambda kk, _ya=ya: _ya(rank(kk))  # noqa: E731
+                facts.append(lambda kk, _ia=idx.at: z3.Implies(_ia(kk), sel(rank(kk)) == kk))
+                facts += [(lambda kk, _f=f, _ia=idx.at: z3.Implies(_ia(kk), _f(rank(kk)))) for f in y.facts]
+            elif x.elem == "xreal":
                 ey, _ = xelem(y)
             else:
                 ty = to_real(y) if isinstance(y, Z) else None
-                ey = (lambda kk: ty) if ty is not None else y.at
+                ey = (lambda kk: ty)
             new_at = lambda kk, _ia=idx.at: z3.If(_ia(kk), ey(kk), old_at(kk))  # noqa: E731
             key = f"where({idx.key},{skey(y)},{x.key})"
+            if inplace:
+                x.at, x.key, x.facts = new_at, key, facts
+                return x
+            return Arr(x.n, x.elem, new_at, key, x.meta, facts)
         if inplace:
             x.at, x.key = new_at, key
             return x
@@ -756,7 +791,8 @@ def install_builtins(reg: Registry):
         if nm == "str":
             return isinstance(v, Str) and not getattr(v, "is_bytes", False)
         if nm == "bytes":
-            return (isinstance(v, Str) and getattr(v, "is_bytes", False)) or (isinstance(v, Sym) and v.tag == "bytes")
+            return (isinstance(v, Str) and getattr(v, "is_bytes", False)) or (isinstance(v, Sym) and v.tag == "bytes") or \
+                (isinstance(v, Arr) and ("bytes_of" in v.meta or v.meta.get("is_bytes")))
         if nm == "dict":
             return isinstance(v, PyDict)
         if nm == "list":
@@ -1116,6 +1152,21 @@ def install_builtins(reg: Registry):
     def h_deepcopy(i, a, k, n):
         assumed(i, "copy.deepcopy: structurally equal copy")
         return deep_copy(i, a[0], {})
+
+    @H("copy.copy")
+    def h_copy(i, a, k, n):
+        assumed(i, "copy.copy: shallow copy (fields / items are shared with the original)")
+        v = a[0]
+        if isinstance(v, Obj):
+            o = Obj(v.cls, dict(v.f), tag=v.tag)
+            o.absent = set(v.absent)
+            o.shallow_copy_of = v
+            return o
+        if isinstance(v, PyList):
+            return PyList(v.items)
+        if isinstance(v, PyDict):
+            return PyDict(v.d)
+        return v
 
     reg.handlers["deepcopy"] = h_deepcopy
     reg.import_ok.add("copy.deepcopy")
